@@ -15,9 +15,9 @@ LEAN_PROOFS = ['Proofs.C16']
 GEN_ITEMS = []
 RULE = ('op lines = (operation, ring k, coefficient vectors, index expression / value); vectors of dims 0..4 over k in {1,2,3} '
         'enumerated: all of them for unary / re-chunking operations; binary operators by poly.exh lines (one left operand against ALL right '
-        'operands of one dimension): every ordered pair for k=1,2 and every pair except (dim 4, dim 4) for k=3 in the thorough tier - those 16.7M '
-        'pairs are taken for 2% of the left operands -, a seeded fraction in quick; k in {0,8,32,64} and random k in 1..64 with dims to 20 seeded; '
-        'distinct lines; non-trivial = the implementation returned a value (not an exception) for the main operation')
+        'operands of one dimension): thorough = every ordered pair for k=1,2 and for k=3 every pair with dim a + dim b <= 6, a quarter of the left '
+        'operands for the shapes (3,4),(4,3) and 2% for (4,4) (16.7M pairs); quick = a seeded fraction; k in {0,8,32,64} and random k in 1..64 '
+        'with dims to 20 seeded; distinct lines; non-trivial = the implementation returned a value (not an exception) for the main operation')
 TRUSTED = ['CPython int/list/slice semantics (Model.Py) are modelled, validated by enumeration in this stream',
            'bitwise operators on the ring Z use a two\'s-complement window in the model (Model.Poly.intBitOp); tied to Python ints by this stream and to Spec.Poly.land/lor/lxor by the executable echo']
 ASSUMPTIONS = ['python -O (asserts stripped) is out of scope',
@@ -529,9 +529,10 @@ def cases(tier, rng):
             for dy in range(5):
                 for o in BOPS:
                     if quick and rng.random() > (0.2 if k == 1 else 0.02 if k == 2 else 0.0015 if dy == 4 else 0.004): continue
-                    # thorough: everything except the 16.7M pairs of two dim-4 vectors over Z/8, of which 2% of the left operands
-                    # (each against all 4096 right operands) are taken
-                    if not quick and k == 3 and len(x) == 4 and dy == 4 and rng.random() > 0.02: continue
+                    # thorough: every ordered pair with dx+dy <= 6; of the 4.2M pairs of shapes (3,4)/(4,3) over Z/8 a quarter of the
+                    # left operands, of the 16.7M pairs of shape (4,4) 2% of them (each against ALL right operands of that dimension)
+                    if not quick and k == 3 and len(x) + dy == 7 and rng.random() > 0.25: continue
+                    if not quick and k == 3 and len(x) + dy == 8 and rng.random() > 0.02: continue
                     yield 'poly.exh %s %s %d' % (o, pt(k, x), dy), 'exh.k%d.dy%d' % (k, dy)
     # 3. every index expression on dims 0..4 (values distinct so that order is visible)
     for k, xs in ((3, [[], [5], [1, 6], [3, 1, 4], [7, 2, 5, 1]]), (8, [[200, 7, 99], [1, 2, 3, 4, 250]]), (0, [[-3, 7, 1 << 40], []])):
